@@ -47,13 +47,14 @@ namespace {
 struct BCfg {
   std::string name;
   bool is_default = false;       // the SDK's default 15 boundaries
+  bool int_only = false;         // list exists for integers that are not exact doubles: integer instrument only
   std::vector<double> b;         // boundaries
   std::vector<double> dfull, dcore, dmid;   // double value alphabets
   std::vector<int64_t> ifull, icore, imid;  // integer value alphabets
 };
 std::vector<BCfg> g_cfgs;
 std::string g_seam = "agg";
-int g_nmax = 3, g_fulln = 2;
+int g_nmax = 3, g_fulln = 2, g_viewn = 2;
 std::string g_alphabet = "full";
 
 const double kDenorm = std::numeric_limits<double>::denorm_min();
@@ -70,14 +71,17 @@ void add_around(std::vector<double> &out, double b) {
   if (b > 0) out.push_back(below(b));
   out.push_back(above(b));
 }
+const double kTwo53 = 9007199254740992.0, kTwo63 = 9223372036854775808.0;
 void add_around_int(std::vector<int64_t> &out, double b) {
-  if (b > 9.0e15) return;  // above 2^53: every integer of the alphabet lies below it
+  if (b >= kTwo63) return;  // every int64 lies below such a boundary
   double f = std::floor(b), c = std::ceil(b);
   if (f == c) {
     int64_t i = (int64_t)b;
     out.push_back(i);
     if (i > 0) out.push_back(i - 1);
     out.push_back(i + 1);
+    // from 2^53 on i+1 is not a double any more: add the next integer that is one, too
+    if (b >= kTwo53 && above(b) < kTwo63) out.push_back((int64_t)above(b));
   } else {
     out.push_back((int64_t)f);
     out.push_back((int64_t)c);
@@ -97,12 +101,16 @@ void build_cfgs() {
       {"[2^52]", {p52}},
       {"[1e300]", {1e300}},
       {"[DBL_MIN]", {kDblMin}},
+      {"[1,1]", {1, 1}},                          // duplicate boundary: the bucket between the two is empty by definition
+      {"[2^53]", {kTwo53}},                       // int64 only: 2^53+1 is the first integer that is not a double
+      {"[2^62]", {4611686018427387904.0}},        // int64 only: doubles are 1024 apart here
   };
   for (auto &l : lists) {
     BCfg c;
     c.name = l.first;
     c.b = l.second;
     c.is_default = (l.first == "default15");
+    c.int_only = (l.first == "[2^53]" || l.first == "[2^62]");
     // full alphabets: the common values plus everything around every boundary
     c.dfull = {0.0, kDenorm, kDblMin, 1.0, 1e300};
     c.ifull = {0, 1, (int64_t)1 << 53};
@@ -180,7 +188,17 @@ bool exactly_summable(const std::vector<double> &vs) {
   return true;
 }
 
-Ref reference(const std::vector<double> &b, const std::vector<Val> &vals, bool is_long) {
+// boundary < value, decided exactly (no conversion of the integer to double): for an integer v,
+// b < v  <=>  floor(b) < v, and floor(b) is an int64 whenever -2^63 <= b < 2^63
+bool boundary_below_int(double b, int64_t v) {
+  if (!(b < kTwo63)) return false;   // b >= 2^63 (or NaN): above every int64
+  if (b < -kTwo63) return true;
+  return (int64_t)std::floor(b) < v;
+}
+
+// `rounded`: decide integer values the way a double comparison would (value converted to double first);
+// only used to recognise one particular defect, never as the expected result
+Ref reference(const std::vector<double> &b, const std::vector<Val> &vals, bool is_long, bool rounded = false) {
   Ref r;
   r.counts.assign(b.size() + 1, 0);
   std::vector<double> ds;
@@ -188,7 +206,7 @@ Ref reference(const std::vector<double> &b, const std::vector<Val> &vals, bool i
   for (auto &v : vals) {
     size_t bucket = 0;  // number of boundaries strictly below the value
     for (double x : b) {
-      bool lt = is_long ? ((long double)x < (long double)v.i) : (x < v.d);
+      bool lt = is_long ? (rounded ? (x < (double)v.i) : boundary_below_int(x, v.i)) : (x < v.d);
       if (lt) ++bucket;
     }
     r.counts[bucket]++;
@@ -252,7 +270,19 @@ void check_point(vf::Ctx &c, const char *seam_, const HistogramPointData &p, con
   for (auto x : p.counts_) total += x;
   CHECK(c, p.count_ == r.count, "C07:" + seam + ":count", vf::sfmt("count=%llu, %llu values were recorded; ", (unsigned long long)p.count_, (unsigned long long)r.count) + where);
   CHECK(c, total == p.count_, "C07:" + seam + ":bucket-counts-do-not-add-up", "bucket counts " + show_counts(p.counts_) + vf::sfmt(" add up to %llu, count=%llu; ", (unsigned long long)total, (unsigned long long)p.count_) + where);
-  CHECK(c, p.counts_ == r.counts, "C07:" + seam + ":bucket-counts", "bucket counts " + show_counts(p.counts_) + ", expected " + show_counts(r.counts) + " (bucket i holds boundary[i-1] < v <= boundary[i]); " + where);
+  if (p.counts_ != r.counts) {
+    // distinguishing feature of one particular defect: an integer value that is not exactly representable as
+    // a double (|v| > 2^53) was bucketed as if it were the double it rounds to
+    bool inexact = false;
+    if (is_long) for (auto &v : vals) inexact |= ((double)v.i >= kTwo63 || (int64_t)(double)v.i != v.i);
+    if (inexact && p.counts_ == reference(b, vals, true, true).counts) {
+      c.report("C07:bucket-counts:int64-value-compared-after-rounding-to-double",
+               "bucket counts " + show_counts(p.counts_) + ", expected " + show_counts(r.counts) + " (bucket i holds boundary[i-1] < v <= boundary[i], decided on the exact integers): an int64 value "
+               "above 2^53 is converted to double for the comparison and lands in the bucket of the double it rounds to; seam " + seam + "; " + where);
+    } else {
+      CHECK(c, false, "C07:" + seam + ":bucket-counts", "bucket counts " + show_counts(p.counts_) + ", expected " + show_counts(r.counts) + " (bucket i holds boundary[i-1] < v <= boundary[i]); " + where);
+    }
+  }
   if (is_long) {
     CHECK(c, nostd::holds_alternative<int64_t>(p.sum_), "C07:" + seam + ":sum-type", "integer instrument reports a non-integer sum; " + where);
     CHECK(c, nostd::get<int64_t>(p.sum_) == r.isum, "C07:" + seam + ":sum", vf::sfmt("sum=%lld, expected %lld; ", (long long)nostd::get<int64_t>(p.sum_), (long long)r.isum) + where);
@@ -305,11 +335,14 @@ bool want_sample() { static int n = 0; return n < 2 ? (++n, true) : false; }
 // ---------------------------------------------------------------------------------------------
 // choices shared by both seams
 // ---------------------------------------------------------------------------------------------
+enum ViewForm { kViewHistogramConfig, kViewDefaultConfig, kNoView, kViewHistogramNull };
 struct Setup {
   const BCfg *cfg;
   bool is_long;
   bool explicit_config;  // false: aggregation_config == nullptr / no view (default boundaries)
   bool minmax;
+  ViewForm view = kViewHistogramConfig;  // meter seam: how the configuration reaches the storage
+  bool skip = false;      // the multiset cannot be completed: its exact sum does not fit the point's int64 sum
   std::vector<Val> vals;  // sorted multiset
   std::string desc;
 };
@@ -317,15 +350,24 @@ struct Setup {
 Setup pick_setup(vf::Ctx &c, bool meter) {
   Setup s;
   s.cfg = &g_cfgs[c.pick("boundaries", (int)g_cfgs.size())];
-  s.is_long = c.pick("type", 2) == 1;
-  // configuration variant: default boundaries are reached both without any configuration and with an explicit copy
-  int nvar = s.cfg->is_default ? 3 : 2;
+  s.is_long = s.cfg->int_only ? true : c.pick("type", 2) == 1;
+  // configuration variant.  0 / 1: explicit configuration with record_min_max on / off (meter seam:
+  // View(kHistogram, config)).  Meter seam only: 2 = View(kDefault, config), which reaches the aggregation through
+  // the default: branch of DefaultAggregation::CreateAggregation(type, descriptor, config).  Default boundaries are
+  // additionally reached without any configuration (agg seam: config == nullptr; meter seam: no view at all and
+  // View(kHistogram, nullptr)).
+  int nexp = meter ? 3 : 2;
+  int nvar = nexp + (s.cfg->is_default ? (meter ? 2 : 1) : 0);
   int var = c.pick("variant", nvar);
-  s.explicit_config = !(s.cfg->is_default && var == 2);
-  s.minmax = s.explicit_config ? (var == 0) : true;
+  s.explicit_config = var < nexp;
+  s.minmax = s.explicit_config ? (var != 1) : true;
+  if (meter) s.view = var <= 1 ? kViewHistogramConfig : var == 2 ? kViewDefaultConfig : var == 3 ? kNoView : kViewHistogramNull;
   // multiset size first, then the value alphabet (see notes): lists with a big full alphabet (default15: 50
-  // values) use it only up to size g_fulln and the middle alphabet above
-  int n = c.pick("size", g_nmax + 1);
+  // values) use it only up to size g_fulln and the middle alphabet above; the two added View forms change the
+  // aggregation factory only and run with multisets of <= g_viewn values
+  int nmax = g_nmax;
+  if (meter && (s.view == kViewDefaultConfig || s.view == kViewHistogramNull)) nmax = std::min(nmax, g_viewn);
+  int n = c.pick("size", nmax + 1);
   const std::vector<double> *da;
   const std::vector<int64_t> *ia;
   std::string alpha = g_alphabet;
@@ -334,16 +376,22 @@ Setup pick_setup(vf::Ctx &c, bool meter) {
   else if (alpha == "mid") { da = &s.cfg->dmid; ia = &s.cfg->imid; }
   else { da = &s.cfg->dcore; ia = &s.cfg->icore; }
   int A = s.is_long ? (int)ia->size() : (int)da->size();
-  // multiset as a non-decreasing index sequence
+  // multiset as a non-decreasing index sequence; integer multisets whose exact sum exceeds INT64_MAX are not
+  // formed (no point could carry their sum): only the alphabet prefix that still fits is offered
   int lo = 0;
+  int64_t isum = 0;
   for (int k = 0; k < n; ++k) {
-    int idx = lo + c.pick("value", A - lo);
+    int hi = A;
+    if (s.is_long) while (hi > lo && (*ia)[hi - 1] > INT64_MAX - isum) --hi;
+    if (hi == lo) { s.skip = true; break; }
+    int idx = lo + c.pick("value", hi - lo);
     Val v;
-    if (s.is_long) { v.i = (*ia)[idx]; v.d = (double)v.i; } else v.d = (*da)[idx];
+    if (s.is_long) { v.i = (*ia)[idx]; v.d = (double)v.i; isum += v.i; } else v.d = (*da)[idx];
     s.vals.push_back(v);
     lo = idx;
   }
-  s.desc = s.cfg->name + (s.is_long ? " int64" : " double") + (s.explicit_config ? "" : " (no config)") + (s.minmax ? "" : " no-minmax");
+  static const char *kViewName[] = {"", " View(kDefault,config)", " (no view)", " View(kHistogram,nullptr)"};
+  s.desc = s.cfg->name + (s.is_long ? " int64" : " double") + (meter ? kViewName[s.view] : s.explicit_config ? "" : " (no config)") + (s.minmax ? "" : " no-minmax");
   return s;
 }
 
@@ -361,6 +409,7 @@ HistogramPointData point_of(const sm::Aggregation &a) { return nostd::get<Histog
 
 void run_agg(vf::Ctx &c) {
   Setup s = pick_setup(c, false);
+  if (s.skip) { c.counted("skipped_sum_above_int64_max"); return; }
   const int K = 3;
   std::vector<int> part(s.vals.size());
   for (size_t i = 0; i < s.vals.size(); ++i) part[i] = c.pick("part", K);
@@ -477,6 +526,7 @@ Collected collect(sm::MetricReader &r) {
 
 void run_meter(vf::Ctx &c) {
   Setup s = pick_setup(c, true);
+  if (s.skip) { c.counted("skipped_sum_above_int64_max"); return; }
   const int K = 3;
   // readers: temporality per reader
   static const std::vector<std::vector<int>> kReaders = {{0}, {1}, {0, 1}, {1, 1}, {0, 0}, {1, 0}};  // 0 = delta, 1 = cumulative
@@ -498,11 +548,14 @@ void run_meter(vf::Ctx &c) {
     readers.emplace_back(new PullReader(t ? sm::AggregationTemporality::kCumulative : sm::AggregationTemporality::kDelta));
     mp.AddMetricReader(readers.back());
   }
-  if (s.explicit_config) {
-    std::shared_ptr<sm::HistogramAggregationConfig> hc(new sm::HistogramAggregationConfig());
-    hc->boundaries_ = s.cfg->b;
-    hc->record_min_max_ = s.minmax;
-    std::unique_ptr<sm::View> view(new sm::View("hv", "view", "u", sm::AggregationType::kHistogram, hc));
+  if (s.view != kNoView) {
+    std::shared_ptr<sm::HistogramAggregationConfig> hc;
+    if (s.explicit_config) {
+      hc.reset(new sm::HistogramAggregationConfig());
+      hc->boundaries_ = s.cfg->b;
+      hc->record_min_max_ = s.minmax;
+    }
+    std::unique_ptr<sm::View> view(new sm::View("hv", "view", "u", s.view == kViewDefaultConfig ? sm::AggregationType::kDefault : sm::AggregationType::kHistogram, hc));
     std::unique_ptr<sm::InstrumentSelector> is(new sm::InstrumentSelector(sm::InstrumentType::kHistogram, "h", "u"));
     std::unique_ptr<sm::MeterSelector> ms(new sm::MeterSelector("m", "1", "s"));
     mp.AddView(std::move(is), std::move(ms), std::move(view));
@@ -572,6 +625,7 @@ void setup(vf::Options &o) {
   g_seam = o.get("seam", "agg");
   g_nmax = atoi(o.get("n", o.thorough ? "5" : "3").c_str());
   g_fulln = atoi(o.get("fulln", o.thorough ? "3" : "2").c_str());
+  g_viewn = atoi(o.get("viewn", o.thorough ? "4" : "2").c_str());
   g_alphabet = o.get("alphabet", g_seam == "meter" ? "core" : "full");
 }
 
